@@ -1,3 +1,4 @@
+mod boardsig;
 mod bussig;
 mod exhaust;
 mod proj;
@@ -25,6 +26,8 @@ fn main() {
         "nextaddr-check" => exhaust::nextaddr_check(&args[2]),
         "scenario" => scenario::run_script(&args[2], &args[3]),
         "bus-sig-check" => bussig::check(&args[2]),
+        "board-check" => boardsig::check(&args[2]),
+        "clamp-sweep" => boardsig::clamp_sweep(args[2].parse().unwrap()),
         "replay" => replay::replay_file(&args[2]),
         _ => usage(),
     }
